@@ -262,6 +262,8 @@ func checkC06(w *World, c *Check, tier string) {
 	c.Trusted = []string{"go/ssa", "fastjson GetStringBytes/StringBytes return the decoded string value", "bytes/strings Replace*/Trim* are the only rewriting primitives the package uses (checked: any other callee on the path is reported)"}
 	c.floor("C06.flow", 2)
 	c.floor("C06.kv", 4)
+	c.floor("C06.exact", 3)
+	checkExactTextEquality(w, c, "C06.exact")
 	checkListDecodeCount(w, c)
 	checkEscaper(w, c, "C06.escaper")
 	// gob encoders that put natural-language text into the property map: the "has data" flag must follow (see flagdisc.go)
